@@ -164,6 +164,22 @@ def step (s : St) (toks : List String) : St × String :=
         | some h, some ds =>
           if h ≤ sys.storeH ∧ 1 ≤ h then sysStep s sys (.update h (ds.map (·.ev))) else (s, "bad-op")
         | _, _ => (s, "bad-op")
+      | "cupdate" =>
+        -- `Update` with a concurrent `ReportConflictingVotes`: the pool's mutex orders the report
+        -- after the buffer was flushed, i.e. update ; report
+        match (kv rest "h").bind String.toInt?, (kv rest "ev").bind (lookupAll s),
+              (kv rest "e").bind (lookup s), (kv rest "swap").bind parseBool with
+        | some h, some ds, some d, some sw =>
+          match d.ev with
+          | .dv dv =>
+            if h ≤ sys.storeH ∧ 1 ≤ h then
+              let c := s.ctx
+              let (sys1, r) := Evidence.step c sys (.update h (ds.map (·.ev)))
+              let (sys2, _) := Evidence.step c sys1 (if sw then .report dv.b dv.a else .report dv.a dv.b)
+              ({ s with sys := some sys2 }, showRes r ++ " " ++ view c sys2.pool)
+            else (s, "bad-op")
+          | .lca _ => (s, "bad-op")
+        | _, _, _, _ => (s, "bad-op")
       | "report" =>
         match (kv rest "e").bind (lookup s), (kv rest "swap").bind parseBool with
         | some d, some sw =>
@@ -178,7 +194,7 @@ def step (s : St) (toks : List String) : St × String :=
           if sys.dead then (s, "dead " ++ view s.ctx sys.pool) else
           let c := s.ctx
           let (l, n) := pendingEvidence c sys.pool m
-          (s, s!"pe n={l.length} bytes={n} ids={showKeys (l.map (key c))}")
+          (s, s!"pe n={l.length} bytes={n} real={n} ids={showKeys (l.map (key c))}")
         | none => (s, "bad-op")
       | _ => (s, "bad-op")
   | [] => (s, "bad-op")
